@@ -23,6 +23,7 @@ def layout():
             "blk": col(c["blk"], c["bi"]),
             "prx": col(c["prx"], c["mod"]),
             "sym": col(c["sym"], c["mod"]),
+            "nil": st.one_of(st.none(), st.none(), st.tuples(st.integers(0, 6), st.integers(0, 5)).map(list)),
         }
     )
 
